@@ -235,7 +235,7 @@ def run(prog, rep, tier, repo):
             rep.ok('counts', key, 'n_bootstrap pushes, each collected 1:1 from sample_n(len(data))')
         # D4 index range
         key = 'index-range:%sbootstrap' % RS
-        _check_index_dist(rep, f, key, data)
+        _check_index_dist(rep, f, key, data, prog)
         # D4b index source: the bulk draw resolves to the trait default (n independent sample() calls) or to an override whose
         # every element is such a call
         key = 'index-source:%sbootstrap' % RS
@@ -322,7 +322,7 @@ def run(prog, rep, tier, repo):
     for name in ('shuffle', 'shuffle_two'):
         f = prog.func(RS + name)
         if f is not None:
-            _check_index_dist(rep, f, 'index-range:%s%s' % (RS, name), ('arg', 1, f.names.get(1)))
+            _check_index_dist(rep, f, 'index-range:%s%s' % (RS, name), ('arg', 1, f.names.get(1)), prog)
     rep.floor('index-range', 3, 'bootstrap, shuffle, shuffle_two')
 
     # ---------------------------------------------------------------- D4c resampling is oblivious to the values it moves
@@ -426,9 +426,35 @@ def _is_map_collect_over(v, src):
     return t == src
 
 
-def _check_index_dist(rep, f, key, data):
+def _check_index_dist(rep, f, key, data, prog=None):
     news = [c for c in f.calls() if c.path == 'distributions::discreteuniform::DiscreteUniform::new']
     if len(news) != 1:
+        # positions drawn from the *continuous* uniform law and converted to an index: rounding to the nearest position gives the two end
+        # positions half the probability of the interior ones; truncating a draw from [0, len-1) never yields the last position
+        cont = [c for c in f.calls() if c.path == 'distributions::uniform::Uniform::new']
+        if not news and len(cont) == 1:
+            from ..ir import is_f64_method, f64_method_name
+            bodies = [f] + ([prog.func(b.key) for b in prog.pdb.closures_of(f.body.key)] if prog is not None else [])
+            conv = set()
+            for g in bodies:
+                terms = [a for c in g.calls() for a in c.args] + [st.value for st in g.stores()] + g.return_values()
+                for t in terms:
+                    for z in subterms(t):
+                        if tag(z) == 'index' and tag(z[2]) == 'cast' and z[2][1] == 'FloatToInt':
+                            inner = z[2][2]
+                            if tag(inner) == 'call' and is_f64_method(inner[1]) and f64_method_name(inner[1]) in ('round', 'ceil'):
+                                conv.add(f64_method_name(inner[1]))
+                            else:
+                                conv.add('trunc')
+            hi = cont[0].args[1]
+            hi_is_last = peq(poly(_nocast(_nofloat(hi))), {(('len', data),): 1, (): -1})
+            if 'round' in conv:
+                rep.viol('index-range', key, 'positions are drawn from the continuous Uniform(%s, %s) and rounded to the nearest index: the first and the last position '
+                         'are drawn half as often as the others (positions are not equally likely)' % (show(cont[0].args[0]), show(hi)[:40]), site_of(cont[0].span))
+                return
+            if conv == {'trunc'} and hi_is_last:
+                rep.viol('index-range', key, 'positions are drawn from the continuous Uniform(0, len - 1) and truncated: the last position is never drawn', site_of(cont[0].span))
+                return
         rep.undecided('index-range', key, 'expected one DiscreteUniform::new, found %d' % len(news), site_of(f.body))
         return
     lo, hi = news[0].args
@@ -438,6 +464,16 @@ def _check_index_dist(rep, f, key, data):
     else:
         rep.viol('index-range', key, 'index distribution is DiscreteUniform(%s, %s), expected (0, len(%s) - 1): an index can fall outside '
                  'the data or some positions can never be drawn' % (show(lo), show(hi), show(data)), site_of(news[0].span))
+
+
+def _nofloat(t):
+    from ..ir import map_term
+
+    def f(n):
+        if tag(n) == 'cast' and n[1] in ('IntToFloat',):
+            return n[2]
+        return n
+    return map_term(t, f)
 
 
 def _nocast(t):
